@@ -95,16 +95,8 @@ func runC12(u *univ.Universe, tips map[string]int, trunk func(h int) int, cfg c1
 		return "harness:setup", err.Error()
 	}
 	defer func() {
-		t0 := time.Now()
-		c.close()
-		if os.Getenv("VERIF_C12_FILTER") != "" {
-			fmt.Println("  close took", time.Since(t0).Round(time.Millisecond))
-		}
-	}()
-	t1 := time.Now()
-	defer func() {
-		if os.Getenv("VERIF_C12_FILTER") != "" {
-			fmt.Println("  run took", time.Since(t1).Round(time.Millisecond))
+		if hung := c.close(); len(hung) > 0 && (sig == "" || sig == "skip") {
+			sig, what = "c12:member-cannot-be-shut-down", fmt.Sprintf("%v: %s", cfg, hung[0])
 		}
 	}()
 	for _, e := range cfg.Edges {
@@ -155,7 +147,11 @@ func runC12Switch(u *univ.Universe, tips map[string]int, start, first, second, m
 	if err != nil {
 		return "harness:setup", err.Error()
 	}
-	defer c.close()
+	defer func() {
+		if hung := c.close(); len(hung) > 0 && sig == "" {
+			sig, what = "c12:member-cannot-be-shut-down", desc+": "+hung[0]
+		}
+	}()
 	v := c.mem[0]
 	b := newByz(u, tips[first], nil)
 	defer b.close()
